@@ -2,7 +2,7 @@
    as shipped (right operands parsed at precedence 0). *)
 From Coq Require Import List NArith Bool.
 From Storage Require Import Base.Bytes Lang.Tokens Lang.Lexer Lang.BoolGrammar Lang.Listener Lang.BoolSurface
-  Lang.BoolGrammarProofs Lang.LexerProofs Lang.C12Proofs.
+  Lang.BoolGrammarProofs Lang.LexerProofs Lang.C12Proofs Lang.Regex Lang.LexerFull Lang.WordOps Lang.WordOpsProofs Lang.WordOpsLexProofs.
 Import ListNotations.
 Open Scope N_scope.
 
@@ -104,3 +104,52 @@ Proof. vm_compute. reflexivity. Qed.
 
 Example atom_ok_examples : atom_ok [97; 110; 100; 121] = true /\ atom_ok [97; 110; 100] = false /\ atom_ok [105; 110; 120] = false.
 Proof. vm_compute. repeat split. Qed.
+
+(* ---- word operators ---- *)
+(* "NoT \t\nbeTWEEN" *)
+Definition not_between_text : str := [78; 111; 84; 32; 9; 10; 98; 101; 84; 87; 69; 69; 78].
+
+Example not_between_spelled : spells_wordop wo_between true not_between_text.
+Proof.
+  apply (SwoNeg wo_between [78; 111; 84] [32; 9; 10] [98; 101; 84; 87; 69; 69; 78]).
+  - repeat constructor; (left; reflexivity) || (right; reflexivity).
+  - apply WrMore; [reflexivity|]. apply WrMore; [reflexivity|]. apply WrOne. reflexivity.
+  - repeat constructor; (left; reflexivity) || (right; reflexivity).
+Qed.
+
+Example not_between_instance :
+  matches (wordop_re wo_between) not_between_text = true /\ op_negated not_between_text = true /\
+  norm_full ([105; 32] ++ not_between_text ++ [32; 49; 32; 65; 78; 68; 32; 50]) =
+  norm_full [105; 32; 110; 111; 116; 32; 98; 101; 116; 119; 101; 101; 110; 32; 49; 32; 97; 110; 100; 32; 50].
+Proof. vm_compute. repeat split; reflexivity. Qed.
+
+(* "iN" is the plain operator; "not\tin" the negated one; "not  in" (two blanks) is NOT a token of the rule IN *)
+Example in_instances :
+  spells_wordop wo_in false [105; 78] /\ op_negated [105; 78] = false /\
+  spells_wordop wo_in true ([110; 111; 116] ++ [9] ++ [105; 110]) /\ op_negated [110; 111; 116; 9; 105; 110] = true /\
+  matches (wordop_re wo_in) [110; 111; 116; 32; 32; 105; 110] = false.
+Proof.
+  repeat split; try reflexivity.
+  - apply SwoPlain. repeat constructor; (left; reflexivity) || (right; reflexivity).
+  - apply SwoNeg; [repeat constructor; left; reflexivity|apply WrOne; reflexivity|repeat constructor; left; reflexivity].
+Qed.
+
+(* reading the token as negated only when it is literally  not<one blank>operator  loses the negation
+   of a correctly spelled operator *)
+Example one_blank_reading_refuted :
+  spells_wordop wo_between true not_between_text /\ op_negated_one_blank (wo_letters wo_between) not_between_text = false /\
+  spells_wordop wo_in true [110; 111; 116; 9; 105; 110] /\ op_negated_one_blank (wo_letters wo_in) [110; 111; 116; 9; 105; 110] = false.
+Proof.
+  split; [exact not_between_spelled|]. split; [reflexivity|]. split; [|reflexivity].
+  apply (SwoNeg wo_in [110; 111; 116] [9] [105; 110]); [repeat constructor; left; reflexivity|apply WrOne; reflexivity|repeat constructor; left; reflexivity].
+Qed.
+
+(* "SoRt" *)
+Example keyword_instance : norm_tok K_SORT [83; 111; 82; 116] = Some (K_SORT, [115; 111; 114; 116], false).
+Proof. reflexivity. Qed.
+
+(* "NoT \t\nbeTWEEN" followed by " 1": one BETWEEN token with the whole spelling, then WS and NUMBER *)
+Example not_between_token :
+  ends_word [32; 49] /\
+  lex_full (not_between_text ++ [32; 49]) = [Tok K_BETWEEN not_between_text; Tok K_WS [32]; Tok K_NUMBER [49]].
+Proof. split; [reflexivity|]. vm_compute. reflexivity. Qed.
